@@ -186,6 +186,17 @@ reg("C14",
     "allocation-count monitor (counting allocator, valgrind cross-check) + differential twin + recorder token scan", "DESIGN.md §4 C14")
 
 
+reg("C11",
+    "Exploration by runtime monitoring in test builds with the unimock feature: for random mockable fn/mod cases every method gets "
+    "a clause registered through exactly the mock_api path with distinct values per parameter and its own answer; the mocked call must "
+    "return that answer without running the original fn (a permuted argument list or a wrong API path panics or fails to compile); "
+    "on a partial mock the trace monitor must show the original fn running once with the Unimock object as dependency, the same "
+    "arguments, the nested (mockable) dependency calls and the Impl<T> result; concrete-deps fns and entraited traits must panic with "
+    "'cannot be unmocked'; the recorder shows one unmock_with entry per method in order.",
+    "Signature class limited to what unimock itself supports (owned/unit returns, matching!-able argument types, no generics).",
+    "runtime trace monitor + differential twin on mock objects + recorder", "DESIGN.md §4 C11")
+
+
 def manifest():
     hooks_commits = subprocess.run(["git", "-C", "/repo", "log", "--format=%H", "--grep=^verif hook"],
                                    stdout=subprocess.PIPE, text=True).stdout.split()
